@@ -232,6 +232,94 @@ mod verif_kani_token {
         assert!(HandRangeToken::from_str(unsafe { std::str::from_utf8_unchecked(&s) }).is_err());
     }
 
+    // ---- C05: the ':weight' suffix is carried by EVERY token shape (exactly: the value parse_probability gives for
+    //      that suffix; ':0' and ':0.5' here -- under the abstraction 0.0 and one symbolic value in [0,1]) ----
+    fn with_weight<const N: usize, const M: usize>(body: [u8; N], half: bool) -> ([u8; M], usize, f32) {
+        // body + ":0" or ":0.5"; returns the bytes, the length and the weight the parser must store
+        let mut s = [0u8; M];
+        let mut i = 0;
+        while i < N { s[i] = body[i]; i += 1; }
+        s[N] = b':'; s[N + 1] = b'0';
+        if half { s[N + 2] = b'.'; s[N + 3] = b'5'; }
+        let len = if half { N + 4 } else { N + 2 };
+        let w = if half { stub_parse_probability(":0.5") } else { 0.0 };
+        (s, len, w)
+    }
+
+    fn rp_setup() -> (u8, u8, u8, bool, u8) {
+        let (h, k, e) = (any_rank(), any_rank(), any_rank());
+        let suited: bool = kani::any();
+        kani::assume(h < k);
+        (h, k, e, suited, if suited { b's' } else { b'o' })
+    }
+    fn mk_rp(suited: bool, x: u8, y: u8) -> RankPair { if suited { RankPair::Suited(rank_of(x), rank_of(y)) } else { RankPair::Ofsuit(rank_of(x), rank_of(y)) } }
+
+    #[kani::proof]
+    #[kani::unwind(9)]
+    #[kani::stub(parse_probability, stub_parse_probability)]
+    fn tok_weight_single_rank_pair() {
+        let (h, k, _e, suited, so) = rp_setup();
+        kani::cover!(!suited);
+        let (s, n, w) = with_weight::<3, 7>([RANK_CH[h as usize], RANK_CH[k as usize], so], true);
+        assert!(HandRangeToken::from_str(unsafe { std::str::from_utf8_unchecked(&s[..n]) }) == Ok(HandRangeToken::new(HandRangeTokenKind::SingleRankPair(mk_rp(suited, h, k)), w)));
+    }
+
+    #[kani::proof]
+    #[kani::unwind(10)]
+    #[kani::stub(parse_probability, stub_parse_probability)]
+    fn tok_weight_plus_rank_pair() {
+        let (h, k, _e, suited, so) = rp_setup();
+        kani::cover!(!suited);
+        let (s, n, w) = with_weight::<4, 8>([RANK_CH[h as usize], RANK_CH[k as usize], so, b'+'], true);
+        assert!(HandRangeToken::from_str(unsafe { std::str::from_utf8_unchecked(&s[..n]) }) == Ok(HandRangeToken::new(HandRangeTokenKind::BottomClosedRankPairRange(mk_rp(suited, h, k)), w)));
+    }
+
+    #[kani::proof]
+    #[kani::unwind(13)]
+    #[kani::stub(parse_probability, stub_parse_probability)]
+    fn tok_weight_span_rank_pair() {
+        let (h, k, e, suited, so) = rp_setup();
+        kani::assume(k < e);
+        kani::cover!(!suited);
+        let (hc, kc, ec) = (RANK_CH[h as usize], RANK_CH[k as usize], RANK_CH[e as usize]);
+        let (s, n, w) = with_weight::<7, 11>([hc, kc, so, b'-', hc, ec, so], true);
+        assert!(HandRangeToken::from_str(unsafe { std::str::from_utf8_unchecked(&s[..n]) }) == Ok(HandRangeToken::new(HandRangeTokenKind::DoubleClosedRankPairRange(mk_rp(suited, h, k), rank_of(e)), w)));
+    }
+
+    #[kani::proof]
+    #[kani::unwind(9)]
+    #[kani::stub(parse_probability, stub_parse_probability)]
+    fn tok_weight_plus_pocket() {
+        let a = any_rank();
+        kani::cover!(a == 12);
+        let ac = RANK_CH[a as usize];
+        let (s, n, w) = with_weight::<3, 7>([ac, ac, b'+'], true);
+        assert!(HandRangeToken::from_str(unsafe { std::str::from_utf8_unchecked(&s[..n]) }) == Ok(HandRangeToken::new(HandRangeTokenKind::BottomClosedRankPairRange(RankPair::Pocket(rank_of(a))), w)));
+    }
+
+    #[kani::proof]
+    #[kani::unwind(11)]
+    #[kani::stub(parse_probability, stub_parse_probability)]
+    fn tok_weight_span_pocket() {
+        let (a, b) = (any_rank(), any_rank());
+        kani::assume(a <= b);
+        kani::cover!(a < b);
+        let (ac, bc) = (RANK_CH[a as usize], RANK_CH[b as usize]);
+        let (s, n, w) = with_weight::<5, 9>([ac, ac, b'-', bc, bc], true);
+        assert!(HandRangeToken::from_str(unsafe { std::str::from_utf8_unchecked(&s[..n]) }) == Ok(HandRangeToken::new(HandRangeTokenKind::DoubleClosedRankPairRange(RankPair::Pocket(rank_of(a)), rank_of(b)), w)));
+    }
+
+    #[kani::proof]
+    #[kani::unwind(10)]
+    #[kani::stub(parse_probability, stub_parse_probability)]
+    fn tok_weight_card_pair() {
+        let (a, b, s1, s2) = (any_rank(), any_rank(), any_suit(), any_suit());
+        kani::assume(a != b || s1 != s2);
+        kani::cover!(a == b);
+        let (s, n, w) = with_weight::<4, 8>([RANK_CH[a as usize], SUIT_CH[s1 as usize], RANK_CH[b as usize], SUIT_CH[s2 as usize]], true);
+        assert!(HandRangeToken::from_str(unsafe { std::str::from_utf8_unchecked(&s[..n]) }) == Ok(HandRangeToken::new(HandRangeTokenKind::SingleCardPair(CardPair::new(Card::new(rank_of(a), suit_of(s1)), Card::new(rank_of(b), suit_of(s2)))), w)));
+    }
+
     // ---- C17 / C06 (text of a token): Display writes exactly the notation that the tok_meaning_* harnesses parse back
     //      to the same value (weight 1 is omitted); complete over all ranks / suits / shapes ----
     #[kani::proof]
